@@ -116,7 +116,8 @@ def run(R, replay=None):
             for tc in _ET.fromstring(text_).iter("testcase"):
                 err = tc.find("error")
                 if err is not None:
-                    pairs.append((err.get("test_id") or err.get("type") or tc.get("name"), err.get("more_info")))
+                    m_id = re.search(r"Test ID: (\S+)", err.text or "")
+                    pairs.append((m_id.group(1) if m_id else None, err.get("more_info")))
         elif fmt == "sarif":
             j_ = json.loads(text_)
             rules_ = {ru["id"]: ru.get("helpUri") for ru in j_["runs"][0]["tool"]["driver"].get("rules", [])}
@@ -126,7 +127,7 @@ def run(R, replay=None):
                 R.violations.append({"what": "format %s: the record of %s carries the link %s, its rule's documentation is %s" % (fmt, tid, url, docs_utils.get_url(tid)),
                                      "input": {"src": src_, "format": fmt}, "observed": pairs[:8], "signature": None})
                 break
-        if len(pairs) < 8:
+        if len([1 for t_, _ in pairs if t_ and t_.startswith("B")]) < 8:
             R.violations.append({"what": "format %s: expected at least 8 records with links, found %d" % (fmt, len(pairs)), "input": {"src": src_}, "observed": pairs, "signature": None})
     # ---- name lookups do not depend on what the parser has seen before (free text after a nosec, other capitalisations)
     for noise in ("# nosec B311 Random numbers only for jitter", "# nosec b311 Pickle Eval MD5 Assert_Used", "# nosec IMPORT_TELNETLIB EXEC_USED"):
